@@ -323,6 +323,23 @@ def run_check(prop, tier, seed, spec, work, t0):
             except Exception as e:  # noqa
                 inconclusive.append(f"native replay for {rel} failed: {e}")
             native_s += time.time() - t1
+    # A witness (a path the engine completed without a failed obligation) that fails natively is re-run
+    # once, alone with the other such cases: the native environments wait real milliseconds for event
+    # loops and loop-back sockets, and on a heavily loaded machine a response can arrive after the
+    # harness looked. A failure that persists is reported as before; one that does not was timing.
+    native_retries = 0
+    if not spec.get("no_native"):
+        retry = {}
+        for cid, (exp, obs, pkg, entry, w) in expect.items():
+            rr = replay_results.get(cid)
+            if exp == "pass" and rr is not None and (rr["outcome"] != "pass" or [(o["label"], o["value"]) for o in (rr.get("obs") or [])] != obs):
+                retry.setdefault(pkg, []).append(case_of(pkg, entry, w, cid))
+        for rel, cases in retry.items():
+            native_retries += len(cases)
+            try:
+                replay_results.update(native_replay(work, nat_ov, rel, cases[:50]))
+            except Exception as e:  # noqa
+                inconclusive.append(f"native replay (retry) for {rel} failed: {e}")
     confirmed = []
     not_reproduced = {}
     engine_only_confirmed = set()
@@ -427,7 +444,7 @@ def run_check(prop, tier, seed, spec, work, t0):
             "violations_by_key": {k: r["count"] for k, r in viol_by_key.items()},
             "known_findings_matched": [l for l in lines if l.startswith("KNOWN")],
             "inconclusive": inconclusive[:20],
-            "engine_wall_s": round(engine_s, 2), "native_replay_wall_s": round(native_s, 2),
+            "engine_wall_s": round(engine_s, 2), "native_replay_wall_s": round(native_s, 2), "native_witness_retries": native_retries,
             "exhaustive": not inconclusive,
         },
         "assumptions": spec.get("assumptions", []),
